@@ -48,6 +48,7 @@ func isoWrite(env *storerun.Env, v int, abort bool) error {
 		}
 		p := &schema.Person{Name: name, Roles: []string{name}}
 		p.Id = "p1"
+		p.Labels = map[string]interface{}{"a": map[string]interface{}{"v": "A"}, "b": map[string]interface{}{"v": "B"}}
 		if S.People.IsEntityPresent(tx, "p1") {
 			// two calls: first the name, then the roles -- in between the entity and the set index belong to different versions
 			if err := S.People.Update(ctx, p, boltz.MapFieldChecker{"name": struct{}{}}); err != nil {
@@ -284,6 +285,17 @@ func isolationMain(args []string) error {
 						return nil
 					})
 				}
+				// elements of a nested map, a different one per goroutine: the symbols are resolved per query and share nothing
+				lq := []string{`labels.a.v = "A"`, `labels.b.v = "B"`}[h%2]
+				_ = env.Db.View(func(tx *bbolt.Tx) error {
+					ids, _, err := env.S.People.QueryIds(tx, lq)
+					if err != nil || len(ids) != 1 || ids[0] != "p1" {
+						mu.Lock()
+						failures = append(failures, fmt.Sprintf("%s returned %v (%v), want [p1]", lq, ids, err))
+						mu.Unlock()
+					}
+					return nil
+				})
 				_ = env.S.People.GetSymbol([]string{"name", "roles", "boss.name", "reports.name", "tags.x"}[i%5])
 				_ = env.S.Staff.GetSymbol("grade")
 				atomic.AddInt64(&helperCalls, 1)
